@@ -139,16 +139,21 @@ func getPersistentVolumeClaims(set *apps.StatefulSet, pod *v1.Pod) map[string]v1
 	ordinal := getOrdinal(pod)
 	templates := set.Spec.VolumeClaimTemplates
 	claims := make(map[string]v1.PersistentVolumeClaim, len(templates))
+	var matchLabels map[string]string
+	if set.Spec.Selector != nil {
+		// a set restored from a revision whose data drops the selector has none
+		matchLabels = set.Spec.Selector.MatchLabels
+	}
 	for i := range templates {
 		claim := templates[i]
 		claim.Name = getPersistentVolumeClaimName(set, &claim, ordinal)
 		claim.Namespace = set.Namespace
 		if claim.Labels != nil {
-			for key, value := range set.Spec.Selector.MatchLabels {
+			for key, value := range matchLabels {
 				claim.Labels[key] = value
 			}
 		} else {
-			claim.Labels = set.Spec.Selector.MatchLabels
+			claim.Labels = matchLabels
 		}
 		claims[templates[i].Name] = claim
 	}
